@@ -36,6 +36,7 @@ import (
 	"os/exec"
 	"path/filepath"
 	"regexp"
+	"sort"
 	"strconv"
 	"strings"
 	"sync"
@@ -821,6 +822,11 @@ type c17rHsPlan struct {
 	junk      bool       // a junk line instead of the ACT: the relay's handshake fails
 	typed     [4][2]bool // phase A (before the ACT), B (between ACT and CFG), C (after the CFG), D (after the reset) x {keys typed at the client, noise printed by the server}
 	exit      int        // 0 none, 1 "#EXIT:" from the client through the tunnel, 2 "#EXIT:" typed in-band
+	// segments on the TUNNEL connections around the handshake lines (only in sessions whose ACT travels through an
+	// agreed tunnel): [0] the ACT's segment carries trailing bytes, [1] a further client segment arrives between ACT
+	// and CFG, [2] the CFG's segment carries trailing bytes, [3] a further server segment follows it at once,
+	// [4] one more segment each way once the relay is transferring
+	seg [5]bool
 }
 
 func (pl c17rHsPlan) String() string {
@@ -834,7 +840,12 @@ func (pl c17rHsPlan) String() string {
 	for ph := 0; ph < 4; ph++ {
 		t += b(pl.typed[ph][0]) + b(pl.typed[ph][1])
 	}
-	return fmt.Sprintf("est=%s act-through-tunnel=%s tunnel=%s confirm=%s junk=%s typed(AkAnBkBnCkCnDkDn)=%s exit=%d", b(pl.est), b(pl.actTunnel), b(pl.tun), b(pl.confirm), b(pl.junk), t, pl.exit)
+	sg := ""
+	for _, v := range pl.seg {
+		sg += b(v)
+	}
+	return fmt.Sprintf("est=%s act-through-tunnel=%s tunnel=%s confirm=%s junk=%s typed(AkAnBkBnCkCnDkDn)=%s exit=%d tunnel-segments(act-trailer,client-mid-handshake,cfg-trailer,server-after-cfg,both-after)=%s",
+		b(pl.est), b(pl.actTunnel), b(pl.tun), b(pl.confirm), b(pl.junk), t, pl.exit, sg)
 }
 
 func c17rJSONLine(typ string, m map[string]any) []byte {
@@ -905,9 +916,25 @@ func c17rHandshake(c *ctx, seed int64, pl c17rHsPlan, prog *c17rProgress) *c17Li
 	if pl.junk {
 		line = []byte("@@junk@@\n")
 	}
+	// what each end writes on its tunnel connection after its handshake line: the other end must receive exactly that
+	var cliSent, srvSent []byte
+	segs := viaTunnel && pl.actTunnel && g >= 0 && !pl.junk
+	cliWrite := func(b []byte) {
+		sc.peers[g].write(b)
+		sc.ev(fmt.Sprintf("w%d:%s", g, hx(b)))
+	}
+	srvWrite := func(b []byte) {
+		sc.srvs[g].write(b)
+		sc.ev(fmt.Sprintf("W%d:%s", g, hx(b)))
+	}
 	if pl.actTunnel && g >= 0 {
-		sc.peers[g].write(line)
-		sc.ev(fmt.Sprintf("w%d:%s", g, hx(line)))
+		if segs && pl.seg[0] { // no newline, no '#': the rest of the ACT's chunk stays in the relay's handshake queue
+			tr := []byte("<TA>AAA-after-the-ACT-line.")
+			line = append(line, tr...)
+			cliSent = append(cliSent, tr...)
+			c.count("segment:act-trailer")
+		}
+		cliWrite(line)
 	} else {
 		sc.inband(0, line)
 	}
@@ -943,14 +970,32 @@ func c17rHandshake(c *ctx, seed int64, pl c17rHsPlan, prog *c17rProgress) *c17Li
 	}
 	if !done {
 		typeNow(1)
+		if segs && pl.seg[1] { // the relay has passed the ACT on: this segment arrives inside its handshake
+			b := []byte("<TB>BBB-between-ACT-and-CFG.")
+			cliWrite(b)
+			cliSent = append(cliSent, b...)
+			c.count("segment:client-mid-handshake")
+			time.Sleep(25 * time.Millisecond)
+		}
 		cfg := c17rJSONLine("CFG", map[string]any{"lang": "go", "version": "1.1.8", "binary": true, "bufsize": 10240, "timeout": 20, "protocol": 4})
 		if viaTunnel {
-			sc.srvs[g].write(cfg)
-			sc.ev(fmt.Sprintf("W%d:%s", g, hx(cfg)))
+			if segs && pl.seg[2] {
+				tr := []byte("<SC>SSS-after-the-CFG-line.")
+				cfg = append(cfg, tr...)
+				srvSent = append(srvSent, tr...)
+				c.count("segment:cfg-trailer")
+			}
+			srvWrite(cfg)
 		} else {
 			sc.inband(1, cfg)
 		}
 		sc.ev("hC1")
+		if segs && pl.seg[3] {
+			b := []byte("<SD>TTT-right-behind-the-CFG.")
+			srvWrite(b)
+			srvSent = append(srvSent, b...)
+			c.count("segment:server-after-cfg")
+		}
 		if !c17WaitUntil(3*time.Second, func() bool { return bytes.Contains(cliSees(), []byte("#CFG:")) }) {
 			c.violate("tunnel-relay:handshake-stuck:cfg", "the relay did not pass the CFG on to the client", sc.describe())
 			return nil
@@ -958,11 +1003,23 @@ func c17rHandshake(c *ctx, seed int64, pl c17rHsPlan, prog *c17rProgress) *c17Li
 		transferring := trzsz.VerifRelayStatusConsts()[2]
 		c17WaitUntil(3*time.Second, func() bool { return trzsz.VerifRelayStatus(sc.relay) == transferring })
 		typeNow(2)
+		if segs && pl.seg[4] {
+			b1, b2 := []byte("<TC>CCC-while-transferring."), []byte("<SE>UUU-while-transferring.")
+			cliWrite(b1)
+			cliSent = append(cliSent, b1...)
+			srvWrite(b2)
+			srvSent = append(srvSent, b2...)
+			c.count("segment:both-after")
+			time.Sleep(5 * time.Millisecond)
+		}
 		switch pl.exit {
 		case 1:
 			if g >= 0 {
 				ex := []byte("#EXIT:eJwDAAAAAAE=\n")
 				sc.peers[g].write(ex)
+				if viaTunnel {
+					cliSent = append(cliSent, ex...)
+				}
 				sc.ev(fmt.Sprintf("w%d:%s", g, hx(ex)))
 				sc.ev("r")
 				waitStandby()
@@ -1021,6 +1078,41 @@ func c17rHandshake(c *ctx, seed int64, pl c17rHsPlan, prog *c17rProgress) *c17Li
 			}
 		}
 	}
+	// ORDER through the bridge, per direction: behind the relay's own ACT (CFG) line the far tunnel connection receives
+	// exactly what the near one sent behind its ACT (CFG) line — nothing lost, nothing doubled, nothing overtaking
+	if viaTunnel && g >= 0 && !pl.junk {
+		_, sh4, ch2, _ := sc.hellos()
+		for _, dd := range []struct {
+			name  string
+			far   *c17Peer
+			hello string
+			sent  []byte
+			skip  bool
+		}{{"client-to-server", sc.srvs[g], ch2, cliSent, false}, {"server-to-client", sc.peers[g], sh4, srvSent, !pl.confirm}} {
+			if dd.far == nil || dd.skip {
+				continue
+			}
+			behind := func() []byte { // what arrived behind the hello and the relay's own first line
+				got, _ := dd.far.state()
+				got = bytes.TrimPrefix(got, []byte(dd.hello))
+				if i := bytes.IndexByte(got, '\n'); i >= 0 {
+					return got[i+1:]
+				}
+				return nil
+			}
+			c17WaitUntil(2*time.Second, func() bool { return len(behind()) >= len(dd.sent) })
+			if got := behind(); !bytes.Equal(got, dd.sent) {
+				key, what := "tunnel-relay:tunnel-stream-differs:"+dd.name, "what one end wrote on its tunnel connection around the relay's handshake is not what the other end received (bytes lost or doubled)"
+				a, b := append([]byte(nil), got...), append([]byte(nil), dd.sent...)
+				sort.Slice(a, func(i, j int) bool { return a[i] < a[j] })
+				sort.Slice(b, func(i, j int) bool { return b[i] < b[j] })
+				if bytes.Equal(a, b) {
+					key, what = "tunnel-relay:tunnel-order:"+dd.name, "bytes written on a tunnel connection around the relay's handshake reached the other end in ANOTHER ORDER (a later segment overtook bytes still parked in the relay's handshake queue)"
+				}
+				c.violate(key, what, fmt.Sprintf("sent behind the handshake line %q, received behind the relay's line %q :: %s", c17Short(dd.sent), c17Short(got), sc.describe()))
+			}
+		}
+	}
 	sc.oracles("handshake")
 	var cobs, sobs []string
 	for _, p := range sc.peers {
@@ -1064,7 +1156,23 @@ func c17rHsPlanAt(rng *rand.Rand, i int) c17rHsPlan {
 		{{false, false}, {false, false}, {true, true}, {false, false}},
 		{{false, false}, {false, false}, {false, false}, {true, true}},
 	}
+	segPlans := [][5]bool{
+		{true, true, false, false, false}, // the seeded history: `ACT AAA`, then `BBB` inside the handshake
+		{false, false, true, true, false}, // its mirror image on the server's side
+		{true, true, true, true, true},
+		{true, false, false, false, true},
+		{false, true, false, true, false},
+	}
 	var pl c17rHsPlan
+	if j := i - len(shapes)*len(typings); j >= 0 && j < 2*len(segPlans) {
+		pl = shapes[0]
+		pl.seg = segPlans[j%len(segPlans)]
+		if j >= len(segPlans) { // … with keys typed in every phase as well
+			pl.typed = typings[1]
+		}
+		pl.exit = []int{0, 1, 2}[j%3]
+		return pl
+	}
 	if i < len(shapes)*len(typings) {
 		pl = shapes[i%len(shapes)]
 		pl.typed = typings[i/len(shapes)]
@@ -1080,6 +1188,9 @@ func c17rHsPlanAt(rng *rand.Rand, i int) c17rHsPlan {
 			}
 		}
 		pl.exit = rng.Intn(3)
+		for k := range pl.seg {
+			pl.seg[k] = rng.Intn(2) == 0
+		}
 	}
 	if !pl.est && pl.exit == 1 {
 		pl.exit = 2
